@@ -1,13 +1,23 @@
 #!/bin/bash
-# seed -> (property check, harnesses that should catch it)
+# run, for every seeded change, the quick (or, where marked, thorough) check of the property it breaks, restricted to the harness expected to catch it
 cd /verif
+base=${1:-4}
 run() { tools/seedcheck.sh "$@" >> target/logs/seedall.txt 2>&1; }
-: > target/logs/seedall.txt
-run C02 4 C02 --only c02_client_remove
-run C03 4 C03 --only c03_em_step_update
-run C06 4 C06 --only c06_new_wiring
-run C08 4 C08 --only c08_proc_delete
-run C09 4 C09 --only c09_store_veto_update
-run C15 4 C15 --only c15_ring_batches
-run C16 4 C16 --only c16_proc_update
-run C18 4 C18 --only c18_cache_isolation_remove
+run C01b $base C01 --only c01_slfu_step
+run C02 $base C02 --only c02_client_remove
+run C02b $base C02 --only c02_new_wiring
+run C03b $base C03 --only c03_client_insert
+run C04 $base C04 --only c04_store_sweep
+run C06 $base C06 --only c06_new_wiring
+run C06b $base C06 --only c06_store_sweep
+run C08b $base C08 --only c08_remove_full_buffer
+run C09b $base C09 --only c09_client_insert
+run C10 $base C10 --only c10_wait_inflight --only c10_wait_barrier
+run C11 $base C11 --only c11_store_sweep
+run C11b $base C11 --only c11_clear_seq
+run C13b $base C13 --only c13_tinylfu_new
+run C15b $base C15 --only c15_batch_reset
+run C16 $base C16 --only c16_proc_update
+run C16b $base C16 --only c16_new_wiring
+run C18 $base C18 --only c18_cache_isolation_remove
+run C20 $base C20 --only c20_sketch_new_widths
